@@ -610,6 +610,54 @@ def gen_boolop(rng, uid):
   else: block.append(['asg', O, ['ite', ['idx', x[0], w, num(rng, 0)], l, r]])
   return {'uid': uid, 'stream': 'boolop', 'sigs': g.sigs, 'block': block}
 
+# ---- straight-line re-assignment of temporaries: type and explicitness are those of the LAST assignment
+
+def gen_tmpseq(rng, uid):
+  """`t = v1; t = v2 [; t = v3]; use t` in straight-line code (optionally inside a loop, first bound to the loop
+  index): literal -> explicit of the same width, explicit -> literal, explicit -> explicit of another width (type
+  conflict), literal -> literal; then t meets a narrower / equal / wider explicitly sized context"""
+  g = Gen(rng, uid, 'tmpseq', 0.0)
+  w = rng.choice([1, 1, 2, 3, 4, 8])
+  top = (1 << w) - 1
+  def lit():   # a literal of minimal width exactly w
+    return num(rng, rng.randint((top >> 1) + 1, top) if w > 1 else rng.randint(0, 1))
+  def expl(ww):
+    r = rng.random()
+    if ww == 1 and r < 0.4:
+      cw = rng.choice([2, 4, 8]); return ['cmp', rng.choice(list(CMPOP)), g.hard(cw, 0), g.hard(cw, 0)]
+    return g.hard(ww, rng.randint(0, 1))
+  in_loop = rng.random() < 0.2
+  seq = []
+  kinds = []
+  n = rng.randint(2, 3)
+  for j in range(n):
+    r = rng.random()
+    if j == 0 and in_loop and rng.random() < 0.7: seq.append(['tasg', 0, ['lv', 0]]); kinds.append('lv')
+    elif r < 0.45: seq.append(['tasg', 0, lit()]); kinds.append('lit')
+    elif r < 0.9: seq.append(['tasg', 0, expl(w)]); kinds.append('ex')
+    else: seq.append(['tasg', 0, expl(max(1, w + rng.choice([-1, 1, 2])))]); kinds.append('exw')
+  if kinds[0] not in ('lit', 'lv') and rng.random() < 0.5: seq[0] = ['tasg', 0, lit()]
+  if in_loop:
+    # the loop index needs exactly w bits
+    hi = max(top, 1)
+    loop = (0, (top >> 1) + 1 if w > 1 else 0, hi + 1, 1)
+  cw = rng.choice([w, w, max(1, w - 1), w + 1, w + 4, 8])       # the context t is used in
+  x = g.new_in(cw); o = g.new_out(cw); o1 = g.new_out(1)
+  X, O, O1, T = ['sig', x[0], cw], ['sig', o[0], cw], ['sig', o1[0], 1], ['tmp', 0]
+  k = rng.random()
+  if k < 0.3: use = ['asg', O, T]
+  elif k < 0.6:
+    l, r = (X, T) if rng.random() < 0.5 else (T, X)
+    use = ['asg', O, ['bin', rng.choice(['add', 'band', 'bor', 'bxor', 'sub']), l, r]]
+  elif k < 0.8:
+    l, r = (X, T) if rng.random() < 0.5 else (T, X)
+    use = ['asg', O1, ['cmp', rng.choice(list(CMPOP)), l, r]]
+  elif k < 0.9: use = ['asg', O, ['ite', ['idx', x[0], cw, num(rng, 0)], X, T]]
+  else: use = ['ifs', ['cmp', 'eq', X, T], [['asg', O, X]], []]
+  body = seq + [use]
+  block = [['for', 0, loop[1], loop[2], loop[3], body]] if in_loop else body
+  return {'uid': uid, 'stream': 'tmpseq', 'sigs': g.sigs, 'block': block}
+
 # ---- labelled streams: one per known soundness hole of the checker (each is a parameterised witness)
 
 def gen_finding(rng, uid, which):
